@@ -542,7 +542,44 @@ def _collections_case(repo, it, S, spec):
             out.append(("records of a joint export = records of each collection exported alone",
                         f"{desc}: record {j} carries {len(a)} feature records {[x[0] for x in a]}; collection {j} exported alone gives {len(b)}: "
                         f"{[x[0] for x in b]}", f.qual))
-    return sum(len(r_.fields["features"]) for r_ in recs), out
+    # the record holds the collection's whole sequence, whatever the collection's own bounds are (bounds narrower than the sequence:
+    # given explicitly, or inferred from the members)
+    n_extra = 0
+    par = chrom_parent(it, GENOME, seq_id="chrN", alphabet="NT_EXTENDED")
+    g = build_gene_obj(it, S, MODELS[1], par)
+    for how, kw in (("explicit bounds 5..45", dict(start=5, end=45)), ("bounds inferred from the members", {})):
+        n_extra += 1
+        try:
+            col = mk_collection(it, [g], None, sequence_name="chrN", parent_or_seq_chunk_parent=par, **kw)
+        except Raised as ex:
+            out.append(("export", f"collection with {how}: construction raises {ex.exc_name}", f.qual))
+            continue
+        sink = SeqIOSink()
+        it.overrides["SeqIO"] = sink
+        k, v = run(it, f, [[col], "sink"], {"genbank_type": it.enum("GenbankFlavor")[flavor]}, None)
+        got = sink.written[0][0][0].fields["seq"] if k == "ok" and sink.written and sink.written[0][0] else v
+        if k != "ok" or got != GENOME:
+            out.append(("record sequence is the whole sequence", f"collection_to_genbank of a collection with {how} ({flavor}): the record holds "
+                        f"{k}:{str(got)[:20]}.. ({len(got) if isinstance(got, str) else '-'} bases); the collection's sequence has {len(GENOME)} bases "
+                        f"(features keep chromosome coordinates, so a cut sequence puts them on the wrong bases)", f.qual))
+    # a collection derived by incorporating a variant is exported on ITS sequence (the alternative haplotype)
+    n_extra += 1
+    try:
+        var = it.apply(ClassTok("VariantInterval"), [16, 17, "G", "SNV"], {"parent_or_seq_chunk_parent": par, "variant_name": "v"}, None, 0)
+        col = mk_collection(it, [g], None, sequence_name="chrN", parent_or_seq_chunk_parent=par)
+        kd, derived = run(it, repo.fn("gene.collections:AnnotationCollection.incorporate_variants"), [var], {}, col)
+        if kd == "ok":
+            sink = SeqIOSink()
+            it.overrides["SeqIO"] = sink
+            k, v = run(it, f, [[derived], "sink"], {"genbank_type": it.enum("GenbankFlavor")[flavor], "update_translations": True}, None)
+            alt = GENOME[:16] + "G" + GENOME[17:]
+            got = sink.written[0][0][0].fields["seq"] if k == "ok" and sink.written and sink.written[0][0] else v
+            if k != "ok" or got != alt:
+                out.append(("record sequence of a derived collection", f"collection_to_genbank of a collection derived by incorporate_variants(SNV 16 "
+                            f"{GENOME[16]}>G) ({flavor}): record sequence {k}:{str(got)[:24]}..; the alternative sequence is {alt[:24]}..", f.qual))
+    except Raised:
+        pass
+    return sum(len(r_.fields["features"]) for r_ in recs) + n_extra, out
 
 
 _W = {}
